@@ -16,6 +16,12 @@ CLAIMS = {
     "C01": ("TLA+ spec; TLC bounded model of ring programs (ring laws as invariants) replayed on the implementation; TLC trace validation of seeded expression trees",
             "TLC enumerates every SSA program of ring operations over a small universe of polynomial arrays, checks the commutative-ring laws on the specification's own exact arithmetic (so a wrong oracle does not survive), and every enumerated program is executed on the real numpoly; in addition seeded expression trees of depth <= 4 over the large input space (0-d..3-d broadcasting, overlapping/disjoint names, int/float/complex, scalars/lists/ndarrays on either side, array exponents) are executed and every recorded call is judged by TLC against the same specification.",
             "DESIGN.md section 6 C01"),
+    "C02": ("TLA+ spec: evaluation as exact substitution of the supplied values (ESubst) over the broadcast argument shape; TLC trace validation over positional/keyword/None bindings and carriers",
+            "Every call p(*args, **kwargs) / numpoly.call is judged by TLC: result shape poly.shape + broadcast(argument shapes), every entry the exact value of the substituted polynomial (big-integer arithmetic in the spec), a plain array for full numeric bindings, TypeError for unknown or doubly supplied names; arguments are Python ints (negative, > 2**16), bools, floats, complex, numpy scalars of every width, lists and arrays up to (2,1,3), and polynomials incl. swaps.",
+            "DESIGN.md section 6 C02"),
+    "C06": ("TLA+ spec: formal partial derivative EDeriv on exact polynomials, gradient/hessian layouts; TLC trace validation under every retain_*/sort_* setting",
+            "derivative with name / index / indeterminate designations and several variables, gradient and hessian are executed under random settings of the retain and sort options (set in the real process, tracked by the option machine); TLC recomputes the formal partial derivatives of every element and the (D,)+shape / (D,D)+shape layouts.",
+            "DESIGN.md section 6 C06"),
     "C07": ("TLA+ spec of the documented total order (ECmp: sign of the coefficient difference at the largest differing monomial under sort_graded/sort_reverse); TLC trace validation of all six operators, three spellings, maximum/minimum",
             "Pairs and triples of polynomials (small random ones, perturbed copies that differ below the leading term, and polynomials with up to 30 terms of equal total degree) are compared with all six operators through operator / numpy / numpoly spellings under the four sort settings, which are set in the real process and tracked by the option machine; TLC recomputes each verdict from the TLA+ definition of the order and demands a bool array of the broadcast shape with exactly those values; maximum/minimum must return the larger/smaller operand element.",
             "DESIGN.md section 6 C07"),
